@@ -242,6 +242,16 @@ func init() {
 							if n1 != n2 {
 								err = fmt.Errorf("counts differ between pages: %d vs %d", n1, n2)
 							}
+							// count-only requests (limit 0), unsorted and sorted: no ids, the same count
+							for _, text := range []string{"true limit 0", "true sort by title limit 0", "true sort by nick desc, name limit 0", "sort by name skip 1 limit 0", "true sort by id desc limit 0"} {
+								ids, n0, err0 := st.Store.QueryIds(tx, text)
+								if err0 != nil {
+									return nil, err0
+								}
+								if len(ids) != 0 || n0 != n1 {
+									return append(a, b...), fmt.Errorf("%s: %d ids, count %d; the pages counted %d", text, len(ids), n0, n1)
+								}
+							}
 							return append(a, b...), err
 						}
 						iter := func(st *schema.St) ([]string, error) {
